@@ -135,12 +135,116 @@ fn expect(op: &TOp, pool: &[Vec<scnr::ScannerMode>], inputs: &[String], shared: 
     }
 }
 
+fn churn(case: &Case) -> CheckResult {
+    use std::sync::atomic::AtomicBool;
+    let n = |k: &str, d: usize| case.extra[k].as_u64().map(|x| x as usize).unwrap_or(d);
+    let (hit_threads, miss_threads, fresh, nfixed) = (
+        n("hit_threads", 4).min(32),
+        n("miss_threads", 4).min(32),
+        n("fresh_per_thread", 1000).min(20_000),
+        n("fixed_keys", 4).clamp(1, 64),
+    );
+    let mk = |name: String, j: usize| {
+        vec![scnr::ScannerMode::new(
+            &name,
+            vec![
+                scnr::Pattern::new(format!("a{{{}}}", 1 + j % 3), 1),
+                scnr::Pattern::new("[a-c]+".to_string(), 2 + j),
+                scnr::Pattern::new("b".to_string(), 0).with_lookahead(scnr::Lookahead::new(j % 2 == 0, "c".to_string())),
+            ],
+            vec![],
+        )]
+    };
+    let probe = "aab bc abc a";
+    let expect_for = |j: usize| -> Result<Vec<Tok>, Failure> {
+        match guard(|| scnr::ScannerBuilder::new().add_scanner_modes(&mk("E".into(), j)).build_uncached()) {
+            Ok(Ok(s)) => Ok(scan(&s, probe, usize::MAX).0),
+            Ok(Err(e)) => Err(Failure::new("c14.churn_setup", format!("fixed configuration does not build: {}", e))),
+            Err(p) => Err(Failure::panic("c14.panic", "sequential build panicked", p)),
+        }
+    };
+    let expected: Vec<Vec<Tok>> = (0..nfixed.max(3)).map(expect_for).collect::<Result<_, _>>()?;
+    let expected = Arc::new(expected);
+    let nonce0 = NONCE.fetch_add((miss_threads * fresh + 1) as u64, Ordering::Relaxed);
+    let done = Arc::new(AtomicBool::new(false));
+    let mut handles = Vec::new();
+    for t in 0..hit_threads {
+        let (expected, done) = (expected.clone(), done.clone());
+        handles.push(std::thread::spawn(move || -> Result<u64, String> {
+            run::install_panic_hook();
+            let mut count = 0u64;
+            let mut j = t;
+            while !done.load(Ordering::Relaxed) {
+                j = (j + 1) % nfixed;
+                let modes = mk(format!("FIXED{}", j), j);
+                let r = guard(|| scnr::ScannerBuilder::new().add_scanner_modes(&modes).build().map(|s| scan(&s, probe, usize::MAX).0));
+                match r {
+                    Err(p) => return Err(format!("re-building long-lived key {} panicked: {}", j, p)),
+                    Ok(Err(e)) => return Err(format!("re-building long-lived key {} failed: {}", j, e)),
+                    Ok(Ok(toks)) => {
+                        if toks != expected[j] {
+                            return Err(format!("long-lived key {}: tokens {:?} instead of {:?}", j, toks, expected[j]));
+                        }
+                    }
+                }
+                count += 1;
+            }
+            Ok(count)
+        }));
+    }
+    let mut miss_handles = Vec::new();
+    for t in 0..miss_threads {
+        let expected = expected.clone();
+        miss_handles.push(std::thread::spawn(move || -> Result<u64, String> {
+            run::install_panic_hook();
+            for i in 0..fresh {
+                let j = i % 3;
+                let modes = mk(format!("FRESH{}_{}", nonce0 + (t * fresh + i) as u64, j), j);
+                let r = guard(|| scnr::ScannerBuilder::new().add_scanner_modes(&modes).build().map(|s| scan(&s, probe, usize::MAX).0));
+                match r {
+                    Err(p) => return Err(format!("building a new key panicked: {}", p)),
+                    Ok(Err(e)) => return Err(format!("building a new key failed: {}", e)),
+                    Ok(Ok(toks)) => {
+                        if toks != expected[j] {
+                            return Err(format!("new key: tokens {:?} instead of {:?}", toks, expected[j]));
+                        }
+                    }
+                }
+            }
+            Ok(fresh as u64)
+        }));
+    }
+    let mut st = CaseStats::default();
+    let mut failure: Option<String> = None;
+    for h in miss_handles {
+        match h.join() {
+            Ok(Ok(c)) => st.add("churn_new_keys_built", c),
+            Ok(Err(e)) => failure = failure.or(Some(e)),
+            Err(_) => failure = failure.or(Some("a thread died".into())),
+        }
+    }
+    done.store(true, Ordering::Relaxed);
+    for h in handles {
+        match h.join() {
+            Ok(Ok(c)) => st.add("churn_long_lived_rebuilds", c),
+            Ok(Err(e)) => failure = failure.or(Some(e)),
+            Err(_) => failure = failure.or(Some("a thread died".into())),
+        }
+    }
+    if let Some(e) = failure {
+        return Err(Failure::new("c14.churn", format!("cache churn ({} threads re-building {} long-lived keys, {} threads inserting {} new keys each): {}", hit_threads, nfixed, miss_threads, fresh, e)));
+    }
+    st.nontrivial = true;
+    st.count("churn_cases");
+    Ok(st)
+}
+
 impl Check for C14 {
     fn id(&self) -> &'static str {
         "C14"
     }
     fn rule(&self) -> &'static str {
-        "static: the check binary only compiles if scnr::Scanner: Send + Sync; dynamic case = pool of 2-4 configurations (near-identical variants and one failing configuration) with nonce'd mode names, 2-3 inputs, one shared Arc<Scanner>, 2-8 thread programs of build(k) through the shared cache (first build of a key is a miss, later ones hits, failing builds) | scan on the shared scanner (full or partial) | private build_uncached + scan, with per-operation spin/yield counts from the choice stream and a barrier-aligned start, repeated 20 times with fresh nonces; oracle = every observation of every thread equals the observation of the same operation executed sequentially on uncached scanners; no panic (a poisoned cache lock shows as a panic of a later build), no-progress watchdog; non-trivial = repetition in which >= 2 threads build the same key (hit while another inserts) or >= 2 threads iterate the shared scanner"
+        "static: the check binary only compiles if scnr::Scanner: Send + Sync; dynamic case = pool of 2-4 configurations (near-identical variants and one failing configuration) with nonce'd mode names, 2-3 inputs, one shared Arc<Scanner>, 2-8 thread programs of build(k) through the shared cache (first build of a key is a miss, later ones hits, failing builds) | scan on the shared scanner (full or partial) | private build_uncached + scan, with per-operation spin/yield counts from the choice stream and a barrier-aligned start, repeated 20 times with fresh nonces; plus fixed cache-churn cases (6 threads re-building 8 long-lived keys in a tight loop while 6 threads insert 2 500 new keys each); oracle = every observation of every thread equals the observation of the same operation executed sequentially on uncached scanners; no panic (a poisoned cache lock shows as a panic of a later build), no-progress watchdog; non-trivial = repetition in which >= 2 threads build the same key (hit while another inserts) or >= 2 threads iterate the shared scanner"
     }
     fn assumptions(&self) -> Vec<String> {
         vec!["schedules are sampled on real threads, not enumerated; the thorough tier adds a ThreadSanitizer build and Miri with seeded preemptive schedules on small programs".into()]
@@ -157,6 +261,18 @@ impl Check for C14 {
     }
     fn nondeterministic(&self) -> bool {
         true
+    }
+    fn fixed_cases(&self, thorough: bool) -> Vec<Case> {
+        // cache churn: some threads re-build a few long-lived keys in a tight loop while others
+        // insert thousands of new keys (a cache with a size limit / eviction, or a lookup split
+        // into several lock acquisitions, only shows under this load)
+        let n = if thorough { 6 } else { 2 };
+        (0..n)
+            .map(|i| Case {
+                extra: json!({"kind": "churn", "hit_threads": 6, "miss_threads": 6, "fresh_per_thread": 2500, "fixed_keys": 8, "round": i}),
+                ..Case::default()
+            })
+            .collect()
     }
     fn generate(&self, d: &mut Dec, thorough: bool) -> Case {
         let p = GenParams {
@@ -243,6 +359,9 @@ impl Check for C14 {
         out
     }
     fn check(&self, case: &Case) -> CheckResult {
+        if case.extra["kind"].as_str() == Some("churn") {
+            return churn(case);
+        }
         let Some(pool) = pool_of(case) else {
             return Ok(CaseStats::default());
         };
